@@ -15,9 +15,9 @@ RULE = ('Random well-nested write histories: 1-3 interchanges x 0-3 groups x 0-3
         'and the true count). Oracle 2: the real X12Reader and the independent recount both find no envelope discrepancy in the output. '
         'non-trivial = distinct (history, cut) pairs with >=1 omitted or wrong trailer, or a cut inside an open loop.')
 ASSUMPTIONS = ['a sibling header while a loop of the same level is still open is outside the property\'s domain and not generated',
-               'data contains none of the writer\'s delimiters; control numbers are unique within their scope (reuse is the input\'s fault, not the writer\'s)',
+               'data contains none of the writer\'s delimiters; about a tenth of the histories re-use a control number within its scope: counts and trailers must still be true, only the duplicate-id finding itself is then ignored on re-reading',
                'check_837_lx (LX renumbering) left at its default']
-REQUIRED_COUNTERS = ['histories', 'runs', 'runs:cut', 'trailers:omitted', 'trailers:wrong', 'reader-rechecks', 'isa:00501', 'isa:00401']
+REQUIRED_COUNTERS = ['histories', 'runs', 'runs:cut', 'runs:control-number-reused', 'trailers:omitted', 'trailers:wrong', 'reader-rechecks', 'isa:00501', 'isa:00401']
 MIN_CASES = {'quick': 4000, 'thorough': 1500000}
 
 TERMS = [('~', '*', ':', '^', '\n'), ('!', '|', '>', '^', ''), ('\x1c', '\x1d', '<', '\x1f', '\r\n'), ('\n', '*', ':', '^', ''), ('~', '*', '\\', '^', '\n'),
@@ -34,18 +34,26 @@ def gen(rng):
     for i in range(n_isa):
         icvn = rng.choice(['00401', '00501'])
         isa_id = '%09d' % (i * 7 + rng.randint(1, 5))
+        if i and rng.random() < 0.08:
+            isa_id = [e[2] for e in ev if e[0] == 'open' and e[1] == 'ISA'][-1]       # control number used again: the counts must not care
         ev.append(('open', 'ISA', isa_id, icvn))
         last_isa = (i == n_isa - 1)
         isa_close = rng.choice(['own', 'own', 'wrong', 'omit']) if last_isa else rng.choice(['own', 'own', 'wrong'])
         ngroups = rng.randint(0, 3)
         for g in range(ngroups):
             gid = str(g * 10 + rng.randint(1, 9))
+            if g and rng.random() < 0.1:
+                gid = prev_gid
+            prev_gid = gid
             ev.append(('open', 'GS', gid, 'GS*HC*A*B*20040608*1333*%s*X*004010X098A1' % gid))
             last_g = (g == ngroups - 1)
             ge_close = rng.choice(['own', 'own', 'wrong', 'omit']) if last_g else rng.choice(['own', 'own', 'wrong'])
             nsets = rng.randint(0, 3)
             for t in range(nsets):
                 sid = '%04d' % (t * 10 + rng.randint(1, 9))
+                if t and rng.random() < 0.12:
+                    sid = rng.choice(sids)
+                sids = (sids if t else []) + [sid]
                 ev.append(('open', 'ST', sid, 'ST*837*%s' % sid))
                 for _ in range(rng.randint(0, 5)):
                     ev.append(('body', rng.choice(BODY)))
@@ -170,6 +178,29 @@ def reader_envelope_errors(text):
     return [e for e in errs if RE.is_envelope_error(e[0], e[1]) and e[1] not in ('HL1', 'HL2', 'LX')]
 
 
+def _reused(ev):
+    """does the history use a control number twice within its scope?"""
+    isa, gs, st = set(), set(), set()
+    for e in ev:
+        if e[0] != 'open':
+            continue
+        if e[1] == 'ISA':
+            if e[2] in isa:
+                return True
+            isa.add(e[2])
+            gs = set()
+        elif e[1] == 'GS':
+            if e[2] in gs:
+                return True
+            gs.add(e[2])
+            st = set()
+        elif e[1] == 'ST':
+            if e[2] in st:
+                return True
+            st.add(e[2])
+    return False
+
+
 def one(ctx, ev, cut, terms, meta):
     case = {'meta': meta, 'cut': cut, 'terms': list(terms), 'events': [(e[0], e[1], e[2] if e[0] != 'body' else None) if e[0] != 'body' else e for e in ev[:cut]]}
     ctx.count('runs')
@@ -203,11 +234,15 @@ def one(ctx, ev, cut, terms, meta):
         except Exception as ex:
             ctx.viol('writer:reread:%s' % exc_key(ex), 're-reading the written text raised', case, {'exc': repr(ex), 'text': got[:1500]})
             return None
+        reused = _reused(ev[:cut])
+        if reused:
+            ctx.count('runs:control-number-reused')
+            errs = [e for e in errs if e[1] not in ('23', '6', '025')]       # the duplicate itself is the caller's doing
         if errs:
             ctx.viol('writer:reread:envelope-error:%s' % ','.join(sorted(set('%s/%s' % e for e in errs))), 'the reader reports envelope errors in the written text', case,
                      {'errors': errs, 'text': got[:1500]})
         res = RE.recount(tokenize(got, st, et, eol))
-        if not res.proper or [m for m in res.must if m[2] not in ('HL1', 'HL2', 'LX')]:
+        if not res.proper or [m for m in res.must if m[2] not in ('HL1', 'HL2', 'LX') and not (reused and m[2] in ('23', '6', '025'))]:
             ctx.viol('writer:recount', 'the independent recount finds an envelope discrepancy in the written text', case,
                      {'proper': res.proper, 'must': res.must, 'text': got[:1500]})
     nontrivial = info['omitted'] or info['wrong'] or info['open_at_close']
